@@ -345,4 +345,13 @@ def main(argv=None):
 
 
 if __name__ == "__main__":
-    sys.exit(main())
+    try:
+        rc = main()
+    except SystemExit:
+        raise
+    except BaseException as e:  # a crash of the checker is exit 3, never 1
+        import traceback
+        traceback.print_exc()
+        print(f"CHECKER-ERROR {type(e).__name__}: {e}")
+        rc = 3
+    sys.exit(rc)
